@@ -84,6 +84,8 @@ def run(ctx):
                 kind = "bytes-altered-or-reordered:" + ev.get("dir", "?")
             elif kind == "end":
                 kind = "bytes-lost:" + ev.get("dir", "?")
+            elif kind == "kept":
+                kind = "returned-chunk-overwritten-by-a-later-read"
             elif kind == "unblock":
                 kind = "blocked-read-not-released:" + ev.get("cause", "?")
             elif kind == "e2e":
